@@ -370,6 +370,7 @@ struct RunResult
     // every rule-functor call as (rule, value) in call order (includes nodes later discarded by recovery)
     std::vector<std::pair<int, uint64_t>> calls;
     std::vector<std::vector<int>> call_args;   // per call: token index of each argument (-1 nonterminal value, -2 error token)
+    int max_examined = -1;                     // highest token index the driver looked at (as lookahead or shifted)
     bool looped = false;                       // the (ambiguous) grammar reduces empty rules forever on this input
     bool lex_error_reached = false;            // the parser asked for a term where no term matches
     std::vector<int> shifted_tokens;           // token indices shifted
@@ -388,7 +389,7 @@ inline RunResult run_lr(const Table& t, const std::vector<Token>& toks, bool tra
     std::vector<uint64_t> vals;   // one per state above the bottom
     std::vector<int> vtok;        // token index of each value (-1 nonterminal, -2 error)
     size_t pos = 0;
-    auto cur = [&]() { return pos < toks.size() ? toks[pos].term : g.eof(); };
+    auto cur = [&]() { if (pos < toks.size()) { if (int(pos) > r.max_examined) r.max_examined = int(pos); return toks[pos].term; } return g.eof(); };
     auto do_reduce = [&](int rule)
     {
         const Rule& ru = g.rules[rule];
